@@ -83,7 +83,7 @@ def format(data):
         description, flags=re.IGNORECASE + re.UNICODE)
     for name, conversion in data.get('conversions', {}).items():
         description += '\n<br/><b><i>%s</i></b>: %s' % (
-            html.escape(name), html.escape(conversion))
+            html.escape(name), html.escape(str(conversion)))
     return '<li>%s: <b>%s</b><p>%s</p></li>' % (
         html.escape(data['number']),
         html.escape(data['name']),
